@@ -6,11 +6,17 @@
    only if it is [Some]; a query ([EvQuery q]) reads the state once and computes its whole reply
    from that value ([query], the model of resolve_and_build_response in authoritative-only mode).
 
-   What is NOT in the model and is observed instead by the C19 stream against the real binary
-   (vlib/p_c19.py, replies before / during / after every SIGUSR1): that tokio's RwLock makes the
-   assignment atomic with respect to requests in flight, i.e. that the interleavings of the real
-   process are the interleavings of [run].  In the model a reload and a query are single steps by
-   construction. *)
+   In [run] a reload and a query are single steps.  The second half of this file
+   (the C19_concurrent_ theorems) removes that: Config/ConfigConcurrent.v puts reload_task and the request
+   handlers around a reader-writer lock (Base/Locks.v) -- the handler holds the read guard over
+   arbitrarily many reads of the configuration, with steps of other tasks in between; the reload
+   loads without the lock and takes the write lock only to store a complete value -- and the
+   statements hold for EVERY schedule.  That main.rs has critical sections of this shape is read
+   from the source on every run (Base/TablesOk.zones_lock_sections_ok).
+   What stays outside and is observed by the C19 stream against the real binary (vlib/p_c19.py,
+   replies before / during / after every SIGUSR1, overlapping reloads): that tokio's RwLock
+   provides the exclusion the model assumes, signal delivery, and that the server keeps answering
+   (liveness). *)
 From RV Require Import Base.Prelude Name.NameModel Wire.WireTypes Zone.ZoneModel Config.ConfigModel Config.ConfigProofs.
 
 (* If every file loads the state becomes exactly the freshly loaded configuration; if any file or
@@ -89,3 +95,71 @@ Proof.
   assert (H : load_text_zf ex_targs ex_tfs <> None) by (vm_compute; discriminate).
   split; [exact H|]. apply reload_forgets. exact H.
 Qed.
+
+(* ====================================================================== *)
+(* reload and queries as concurrent tasks around zones_lock                 *)
+(* ====================================================================== *)
+From RV Require Base.Locks Config.ConfigConcurrent.
+
+(* [ConfigConcurrent.crun a F st0 cevs]: the server after the schedule [cevs] -- any list of: time
+   passes; SIGUSR1 handled with the files as in f (the load happens outside the lock; only a
+   successful load goes on to the write lock); handler t receives question q (and goes for the read
+   lock); a task tries to acquire; a task takes its next step (the reload stores its value; a handler
+   reads the configuration once more); a task releases.  [F seen q] is what a handler computes from
+   the values it read; the only assumption is that on reads that all gave the same configuration it
+   is [query] of that configuration.
+
+   Every reply went to a question that was asked, and -- if the handler looked at the configuration
+   at all -- is [query v q] for ONE configuration v, which is the initial one or the complete result
+   [load a f] of one delivered SIGUSR1: entirely old or entirely new, never a mixture, wherever the
+   reload falls between the handler's reads. *)
+Theorem C19_concurrent_query_sees_one_config : forall a F,
+  (forall s seen q, seen <> [] -> Forall (eq s) seen -> F seen q = query s q) ->
+  forall st0 cevs t q seen o,
+  In (Locks.RRet state state question (option (res unit answer)) t q seen o)
+     (Locks.rets _ _ _ _ (ConfigConcurrent.crun a F st0 cevs)) ->
+    (exists t', t = Datatypes.S t' /\ In (ConfigConcurrent.CQuery t' q) cevs) /\
+    (seen <> [] ->
+       exists v, o = Some (query v q) /\ In v (Locks.hist _ _ _ _ (ConfigConcurrent.crun a F st0 cevs)) /\
+                 (v = st0 \/ exists f, In (ConfigConcurrent.CSignal f) cevs /\ load a f = Some v)) /\
+    (seen = [] -> o = Some (F [] q)).
+Proof. exact ConfigConcurrent.concurrent_query_sees_one_config. Qed.
+Print Assumptions C19_concurrent_query_sees_one_config.
+
+(* every configuration the server is ever in, under every schedule: the initial one or the complete
+   result of one successful load *)
+Theorem C19_concurrent_states_origin : forall a F st0 cevs v,
+  In v (Locks.hist _ _ _ _ (ConfigConcurrent.crun a F st0 cevs)) ->
+  v = st0 \/ exists f, In (ConfigConcurrent.CSignal f) cevs /\ load a f = Some v.
+Proof. exact ConfigConcurrent.concurrent_states_origin. Qed.
+Print Assumptions C19_concurrent_states_origin.
+
+(* a SIGUSR1 whose load fails is, for the whole system, as if it had not been delivered *)
+Theorem C19_concurrent_failed_reload_is_noop : forall a F st0 cevs1 f cevs2,
+  load a f = None ->
+  ConfigConcurrent.crun a F st0 (cevs1 ++ ConfigConcurrent.CSignal f :: cevs2) = ConfigConcurrent.crun a F st0 (cevs1 ++ cevs2).
+Proof. exact ConfigConcurrent.concurrent_failed_reload_is_noop. Qed.
+Print Assumptions C19_concurrent_failed_reload_is_noop.
+
+(* the write lock excludes readers: while the reload task is inside its write section no handler is
+   inside a read section (and vice versa) *)
+Theorem C19_concurrent_writer_excludes_readers : forall a F st0 cevs t1 t2,
+  let s := ConfigConcurrent.crun a F st0 cevs in
+  Locks.holds_w _ _ _ _ (Locks.pcs _ _ _ _ s t1) -> ~ Locks.holds_r _ _ _ _ (Locks.pcs _ _ _ _ s t2).
+Proof.
+  intros a F st0 cevs t1 t2 s H1.
+  exact (proj2 (Locks.mutual_exclusion _ _ _ _ _ _ st0 (flat_map (ConfigConcurrent.to_ev a) cevs) t1 t2 H1)).
+Qed.
+Print Assumptions C19_concurrent_writer_excludes_readers.
+
+(* the model discriminates: a handler that took the read lock twice for one query could see two
+   configurations; inside one section it cannot *)
+Example C19_two_sections_can_differ :
+  let s := Locks.run_sched nat nat unit (list nat) (fun _ _ z => (z, [])) (fun seen _ => seen)
+             (Locks.init_sys nat nat unit (list nat) 0%nat)
+             [Locks.CallR _ _ 1%nat tt; Locks.Acq _ _ 1%nat; Locks.Step _ _ 1%nat; Locks.Rel _ _ 1%nat;
+              Locks.CallW _ _ 0%nat 7%nat; Locks.Acq _ _ 0%nat; Locks.Step _ _ 0%nat; Locks.Rel _ _ 0%nat;
+              Locks.CallR _ _ 1%nat tt; Locks.Acq _ _ 1%nat; Locks.Step _ _ 1%nat; Locks.Rel _ _ 1%nat] in
+  map (fun r => match r with Locks.RRet _ _ _ _ _ _ seen _ => seen | Locks.WRet _ _ _ _ _ => [] end) (Locks.rets _ _ _ _ s)
+  = [[7%nat]; []; [0%nat]].
+Proof. exact ConfigConcurrent.two_sections_can_differ. Qed.
